@@ -28,6 +28,7 @@ def run(ctx: Ctx) -> None:
     _memo.rule_paste_incomplete(ctx, ['graphiq/solvers/solver_base.py', 'graphiq/solvers/evolutionary_solver.py'])
     _memo.rule_negative_start(ctx, ['graphiq/solvers/solver_base.py', 'graphiq/solvers/evolutionary_solver.py'])
     _memo.rule_elim_no_pivot(ctx, ['graphiq/solvers/solver_base.py', 'graphiq/solvers/evolutionary_solver.py'])
+    _memo.rule_subject_drift(ctx, ['graphiq/solvers/solver_base.py', 'graphiq/solvers/evolutionary_solver.py'])
     solvers.rule_rng(ctx)
     solvers.rule_sethash(ctx, [EVO, HYB, SB])
     solvers.rule_hof_copy(ctx)
